@@ -37,6 +37,8 @@ var verifC03FilterSrc = []string{
 	"select id from a where exists (select 1 from a as z where z.k = a.k and z.id <> a.id)", // 7
 	"with recursive r (n) as (select 1 union all select n + 1 from r where n < @m) select n from r", // 8
 	"select id, (select count(*) from a as z where z.k < a.k) from a",                     // 9
+	"with c as (select id, k from a) select y.id from (select id, k from c where k >= @x) x cross join c y where x.id = y.id or y.id = 0", // 10: CTE read twice
+	"with c as (select k, id from a) select id from c where k < @x union all select id from c", // 11
 }
 
 var verifC03Joins, verifC03Filters []parser.SelectQuery
@@ -242,6 +244,24 @@ func VerifC03FilterProject() {
 			if dup {
 				want = append(want, i)
 			}
+		}
+	case 10:
+		for i := 0; i < n; i++ {
+			if ge(ks[i], x) {
+				if i != 0 {
+					want = append(want, 0) // y.id = 0 partner first (y in table order)
+				}
+				want = append(want, i)
+			}
+		}
+	case 11:
+		for i := 0; i < n; i++ {
+			if lt(ks[i], x) {
+				want = append(want, i)
+			}
+		}
+		for i := 0; i < n; i++ {
+			want = append(want, i)
 		}
 	case 8:
 		want = append(want, 1)
